@@ -210,6 +210,9 @@ func (g *gen) leafVal(sv int, inFor bool) *Node {
 			if !g.avoid[fpSubNeg] && g.r.Intn(80) == 0 {
 				return mt(-1 - g.r.Intn(2)) // undocumented value; must not panic
 			}
+			if sv == 1 && g.r.Intn(8) == 0 {
+				return mt(1) // not bound by @map/@filter: reads as empty, never as what an earlier evaluation left behind
+			}
 			return mt(g.r.Intn(sv))
 		case 4:
 			if g.keyOK(inFor) {
